@@ -61,7 +61,9 @@ class PartProcessor(PartHandler, Maintainable):
                  cycle_time = 0,
                  value = 0,
                  resources_for_processing = None):
-        super().__init__(name, upstream, cycle_time, value)
+        # Attributes are set before calling the base constructor because
+        # it initializes the Asset immediately when the simulation is
+        # already in progress.
         self._is_shut_down = False
 
         self._resources_for_processing = resources_for_processing
@@ -76,6 +78,7 @@ class PartProcessor(PartHandler, Maintainable):
         self._last_restore = 0
         self._time_in_use = 0
         self._last_use_start = None
+        super().__init__(name, upstream, cycle_time, value)
 
     @property
     def uptime(self):
